@@ -29,7 +29,7 @@ constexpr auto submdspan_static_extent()
             using FirstT  = etl::tuple_element_t<0, Sk>;
             using SecondT = etl::tuple_element_t<1, Sk>;
             if constexpr (integral_constant_like<FirstT> and integral_constant_like<SecondT>) {
-                return de_ice(etl::tuple_element_t<1, Sk>()) - de_ice(etl::tuple_element_t<0, Sk>());
+                return static_cast<etl::size_t>(de_ice(etl::tuple_element_t<1, Sk>()) - de_ice(etl::tuple_element_t<0, Sk>()));
             }
         } else if constexpr (is_strided_slice<Sk>) {
             using ExtT    = typename Sk::extent_type;
